@@ -75,6 +75,11 @@ def gen_cases(ctx):
         # a second dispatcher for the same instance object with the same kinds of observers,
         # following its own history in between
         c["sibling"] = rng.random() < 0.15
+        # the dispatcher's filter attribute is (re)assigned while observers exist (positive durations)
+        c["refilter"] = (not gen.has_zero(c["instance"])) and rng.random() < 0.12
+        # a second observer of the same class (other feature types) is subscribed as well and
+        # leaves in the middle of the history
+        c["same_class_twin"] = rng.random() < 0.15
         if mode == "single":
             t = TYPES[i % 7]
             sup = SUPPORTED.get(t, FT)
@@ -376,6 +381,18 @@ def run_history(ctx, case):
         sib_clocks[o9] = now9
         return compare(ctx, sib, sib_observers, now9, avail9, make_step_info(sib.r, sib_clocks))
 
+    twin_ob = None
+    if case.get("same_class_twin") and case["mode"] == "single" and observers and not case.get("huge"):
+        spec0 = case["observers"][0]
+        sup0 = SUPPORTED.get(spec0["type"], FT)
+        try:
+            twin_ob = make_observer(d, {"type": spec0["type"], "feature_types": [rng.choice(sup0)], "form": "class"})
+            observers = observers + [twin_ob]
+            ctx.count("histories_with_a_second_observer_of_the_same_class")
+        except Exception:
+            twin_ob = None      # singleton kinds refuse a second one
+    refilter_at = rng.randint(1, max(1, r.num_ops - 2)) if case.get("refilter") and not case.get("history") else None
+    skip_once = False
     now, avail = state()
     ok = compare(ctx, run, observers, now, avail, step_info)
     nontrivial = False
@@ -393,6 +410,18 @@ def run_history(ctx, case):
             continue
         if sib is not None and not sibling_step():
             break
+        if twin_ob is not None and len(r.history) >= 1 and rng.random() < 0.3 and twin_ob in d.subscribers:
+            d.unsubscribe(twin_ob)
+            observers = [x for x in observers if x is not twin_ob]
+            ctx.count("same_class_twin_unsubscribed")
+        if refilter_at is not None and len(r.history) == refilter_at:
+            refilter_at = None
+            new_spec = rng.choice([None, {"names": [rng.choice(gen.FILTER_NAMES)], "form": "function"}])
+            d.ready_operations_filter = gen.make_filter(new_spec)
+            run.filter_spec = new_spec
+            run.filter_names = None if new_spec is None else new_spec["names"]
+            run.exact_filters, run.clock_exact = True, True     # positive durations only
+            ctx.count("filter_reassigned_while_observers_exist")
         pol = case["policy"]
         if case.get("history"):
             o, m = case["history"][len(r.history)]
